@@ -33,5 +33,25 @@ fn printed_keys_are_accepted() {
             }
         }
     }
+    // a printed key pair CONFIGURED as the node's key denotes the same keys - whatever else the configuration holds: the key pair alone,
+    // only the private key, and either of them next to a (left-over) password; a password alone gives the password's pair
+    {
+        let (priv_text, pub_text) = Crypto::generate_keypair(None);
+        let (pw_priv, pw_pub) = Crypto::generate_keypair(Some("left-over password"));
+        let _ = pw_priv;
+        let own_key = |c: &Config| -> Result<String, String> { Crypto::new([7; 16], c).map(|cr| to_base62(cr.key_pair.public_key().as_ref())).map_err(|e| e.to_string()) };
+        for &with_pub in [true, false].iter() { for &with_pw in [false, true].iter() {
+            let c = Config { private_key: Some(priv_text.clone()), public_key: if with_pub { Some(pub_text.clone()) } else { None }, password: if with_pw { Some("left-over password".to_string()) } else { None }, ..Default::default() };
+            let got = own_key(&c);
+            if got != Ok(pub_text.clone()) {
+                failing += 1;
+                if failing <= 3 { println!("FAILING-INPUT: a generated key pair configured as private key{}{}: the node uses the key {:?}, not the printed public key {:?}", if with_pub { " + public key" } else { "" }, if with_pw { " next to a password" } else { "" }, got, pub_text); }
+            }
+        } }
+        let c = Config { password: Some("left-over password".to_string()), ..Default::default() };
+        if own_key(&c) != Ok(pw_pub.clone()) { failing += 1; println!("FAILING-INPUT: a node configured with a password only does not use the key pair printed for that password"); }
+        // with nothing else configured the node trusts exactly its own key
+        if let Ok(cr) = Crypto::new([7; 16], &c) { if cr.trusted_keys.len() != 1 || to_base62(&cr.trusted_keys[0]) != pw_pub { failing += 1; println!("FAILING-INPUT: a node without configured trusted keys does not trust exactly its own public key"); } }
+    }
     assert_eq!(failing, 0);
 }
